@@ -28,9 +28,7 @@ let () =
         let (w1, ps) = handle_items !w items in w := w1; emit ps
     | "flush" :: _ -> step [FFlush]
     | "cap" :: v :: _ -> step [FCap (ni v)]
-    | "time" :: v :: _ -> step [FTime (ni v); FExpire]
-    | "clock" :: v :: _ -> step [FTime (ni v)]
-    | "expire" :: _ -> step [FExpire]
+    | "time" :: v :: _ -> step [FTime (ni v)]
     | "reset_nodes" :: _ -> step [FReset]
     | "send" :: t :: s :: ss :: ty :: d :: _ -> step [FSend (((ni t, ni s), ni ss), ni ty, unhex d)]
     | ("discard" | "drain" | "logw" | "stop") :: _ -> ()
